@@ -142,7 +142,7 @@ func c10Snap(w *world.World) c10State {
 		}
 		i := a.Info
 		ag := c10Agent{ID: a.NameID, Key: fmt.Sprintf("%x", a.Encryption.AESKey), IV: fmt.Sprintf("%x", a.Encryption.AESIv)}
-		ag.Meta = strings.Join([]string{i.Hostname, i.Username, i.DomainName, i.ExternalIP, i.InternalIP, i.ProcessName, fmt.Sprint(i.ProcessPID), fmt.Sprint(i.ProcessTID), fmt.Sprint(i.ProcessPPID),
+		ag.Meta = strings.Join([]string{i.Hostname, i.Username, i.DomainName, i.ExternalIP, i.InternalIP, i.ProcessName, i.ProcessPath, fmt.Sprint(i.ProcessPID), fmt.Sprint(i.ProcessTID), fmt.Sprint(i.ProcessPPID),
 			i.ProcessArch, i.Elevated, i.OSVersion, i.OSArch, fmt.Sprint(i.SleepDelay), fmt.Sprint(i.SleepJitter), fmt.Sprint(i.KillDate), fmt.Sprint(i.WorkingHours), fmt.Sprint(i.BaseAddress), i.FirstCallIn, i.LastCallIn}, "\x1f")
 		if a.Pivots.Parent != nil && a.Pivots.Parent.Active {
 			// pairs are pairs of live sessions: a dead parent is not restored at all
@@ -895,7 +895,7 @@ func c10FieldwiseOK(g c10Agent, allowed []c10State, atKill []c10State, id string
 	return c10BadField(g, allowed, atKill, id) == ""
 }
 
-var c10MetaNames = []string{"hostname", "username", "domain", "external-ip", "internal-ip", "process-name", "pid", "tid", "ppid", "arch", "elevated", "os-version", "os-arch", "sleep", "jitter", "kill-date", "working-hours", "base-address", "first-call-in", "last-call-in"}
+var c10MetaNames = []string{"hostname", "username", "domain", "external-ip", "internal-ip", "process-name", "process-path", "pid", "tid", "ppid", "arch", "elevated", "os-version", "os-arch", "sleep", "jitter", "kill-date", "working-hours", "base-address", "first-call-in", "last-call-in"}
 
 func c10Field(g c10Agent, allowed []c10State, id string) string {
 	for _, s := range allowed {
